@@ -509,11 +509,30 @@ func opSpeciate(g *G) (interface{}, []uint64, int, interface{}) {
 	opts := popOpts(g)
 	p := g.poolOf(6)
 	pop := genetics.VerifNewEmptyPopulation()
+	// a fifth of the cases: organisms that did not grow up in one population (files merged from different runs, hand-made
+	// genomes) - the same innovation number stands for links with another recurrence flag in some of them; the distance
+	// is defined on innovation numbers alone
+	foreign := g.chance(0.2)
 	mk := func(k int) []*genetics.Organism {
 		orgs := make([]*genetics.Organism, 0)
 		for i := 0; i < k; i++ {
 			gn := cloneGenome(p.pick(g))
 			gn.Id = i
+			if foreign && g.chance(0.5) {
+				for _, x := range gn.Genes {
+					if g.chance(0.3) {
+						twin := false
+						for _, y := range gn.Genes {
+							if y != x && y.Link.InNode.Id == x.Link.InNode.Id && y.Link.OutNode.Id == x.Link.OutNode.Id {
+								twin = true
+							}
+						}
+						if !twin {
+							x.Link.IsRecurrent = !x.Link.IsRecurrent
+						}
+					}
+				}
+			}
 			if g.chance(0.5) {
 				rand.Seed(g.seed63())
 				_, _ = genetics.VerifMutateLinkWeights(gn, 1+g.f64()*3, 1.0, false)
